@@ -155,7 +155,12 @@ class SystemClock: public Clock {
     void syncNow(acetime_t epochSeconds) {
       if (epochSeconds == kInvalidSeconds) return;
       mLastSyncTime = epochSeconds;
-      if (mEpochSeconds == epochSeconds) return;
+      if (mEpochSeconds == epochSeconds) {
+        // The second did not change, but the milliseconds accumulated since the
+        // last getNow() must not be counted again on top of the new value.
+        mPrevMillis = clockMillis();
+        return;
+      }
 
       mEpochSeconds = epochSeconds;
       mPrevMillis = clockMillis();
